@@ -22,7 +22,7 @@ from hypothesis import strategies as st
 
 from harness import refcodec as rc
 from harness.core import Discrepancy, Outcome
-from harness.odutil import build_od
+from harness.odutil import build_od as _build_od_code
 from harness.simbus import Frame, Hub
 
 PROPERTY = "C03"
@@ -43,7 +43,7 @@ ASSUMPTIONS = [
     "a harness error, not as a violation",
     "strings carry no trailing NUL (decode_raw documents stripping them); REAL32 values are binary32-representable",
 ]
-BUDGET = {"quick": 55, "thorough": 420}
+BUDGET = {"quick": 150, "thorough": 420}
 
 
 class Baton:
@@ -204,6 +204,21 @@ def _same(dt, a, b):
     return isinstance(a, str) and a == b
 
 
+def make_od(spec, source):
+    """The dictionary of a node: built in code, or (source='eds') imported from EDS text that an
+    independent writer produced from the same description."""
+    if source == "eds":
+        import io
+
+        import canopen
+        from harness.c02 import eds_safe, render_eds
+        if eds_safe(spec):
+            fp = io.StringIO(render_eds(spec, False))
+            fp.name = "generated.eds"
+            return canopen.import_od(fp, 1)
+    return _build_od_code(spec)
+
+
 def run_case(case) -> Outcome:
     import canopen
     mode = case["mode"]
@@ -241,9 +256,9 @@ def run_case(case) -> Outcome:
     pairs = []
     for th in threads:
         nid = th["node"]
-        local = canopen.LocalNode(nid, build_od(od_spec))
+        local = canopen.LocalNode(nid, make_od(od_spec, case.get("od_source", "code")))
         net_s.add_node(local)
-        remote = canopen.RemoteNode(nid, build_od(od_spec))
+        remote = canopen.RemoteNode(nid, make_od(od_spec, case.get("od_source", "code")))
         net_c.add_node(remote)
         remote.sdo.RESPONSE_TIMEOUT = 5.0 if mode != "inline" else 0.05
         pairs.append((remote, local))
@@ -375,9 +390,9 @@ def _run_virtual(case, ent, nontrivial):
         nets.append(net_c)
         pairs = []
         for th in case["threads"]:
-            local = canopen.LocalNode(th["node"], build_od(case["od"]))
+            local = canopen.LocalNode(th["node"], make_od(case["od"], case.get("od_source", "code")))
             net_s.add_node(local)
-            remote = canopen.RemoteNode(th["node"], build_od(case["od"]))
+            remote = canopen.RemoteNode(th["node"], make_od(case["od"], case.get("od_source", "code")))
             net_c.add_node(remote)
             remote.sdo.RESPONSE_TIMEOUT = 5.0
             pairs.append((remote, local))
@@ -503,7 +518,8 @@ def case_strategy(draw, modes):
                 ops.append({"e": prev["e"], "path": prev["path"], "partial": draw(st.integers(0, 12)),
                             "buf": draw(st.sampled_from([0, 0, 3, 1024]))})
         threads.append({"node": node_ids[t], "ops": ops})
-    case = {"od": od, "mode": mode, "threads": threads}
+    case = {"od": od, "mode": mode, "threads": threads,
+            "od_source": draw(st.sampled_from(["code", "code", "eds"]))}
     if mode == "baton":
         case["order"] = draw(st.lists(st.integers(0, 7), min_size=0, max_size=200))
     if mode == "dispatcher":
@@ -550,8 +566,9 @@ def enum_cases(thorough):
         else:
             vals = [b"", b"\x00", b"\x01\x02\x03\x04", b"\x01\x02\x03\x04\x05", bytes(range(7)), bytes(range(8)),
                     bytes(200), bytes([255] * 199)]
-        for p in paths:
-            yield {"od": od, "mode": "inline", "threads": [{"node": 7, "ops": [{"e": e, "path": p, "v": v} for v in vals]}]}
+        for k, p in enumerate(paths):
+            yield {"od": od, "mode": "inline", "threads": [{"node": 7, "ops": [{"e": e, "path": p, "v": v} for v in vals]}],
+                   "od_source": "eds" if (k + e) % 2 else "code"}
     # several members of one record / several objects written one after the other, then re-read
     rec = [i for i, en in enumerate(ent) if not en[4]]
     for a in range(0, len(rec) - 3, 3):
